@@ -266,7 +266,11 @@ static int run_enum(int argc, char **argv)
 }
 
 /* ---- random trees and pointers */
-static const char *advkeys[] = {"", "a", "/", "~", "~0", "~1", "0", "01", "-", "a/b", "m~n", "1", "b", "~01", "//", "10", "k"};
+/* (names of every tail length of a 12-byte-block hash, and short names of lengths 1..5 in front of them: a reference
+ * token is hashed where it sits inside the pointer string, at whatever alignment that is) */
+static const char *advkeys[] = {"", "a", "/", "~", "~0", "~1", "0", "01", "-", "a/b", "m~n", "1", "b", "~01", "//", "10", "k",
+                                "elevenchars", "twenty-three characters", "a key of thirty-five characters ...", "twelve chars",
+                                "ab", "abc", "abcd", "abcde", "member_0042", "thirteen char"};
 static int gen(int budget, int depth)
 {
 	int id = ++nspec;
@@ -279,11 +283,11 @@ static int gen(int budget, int depth)
 	}
 	S[id].kind = r < 7 ? 'o' : 'a';
 	int n = 1 + (int)vh_below(5);
-	int used[17] = {0};
+	int used[27] = {0};
 	S[id].nk = 0;
 	for (int i = 0; i < n && nspec < MAXN - 10; i++)
 	{
-		int k = (int)vh_below(17);
+		int k = (int)vh_below(27);
 		if (S[id].kind == 'o')
 		{
 			if (used[k])
@@ -400,7 +404,7 @@ static int drive(int start, int nexec, int nops)
 		ev_end();
 		fresh_tree();
 		emit_tree();
-		char p[256];
+		char p[512];
 		for (int i = 0; i < nops; i++)
 		{
 			rand_pointer(p);
